@@ -36,6 +36,8 @@ ASSUMPTIONS = [
     "HSIC scores (float32 Gram matrices); measured worst errors on the unchanged tree: 4e-8, 1.4e-7, 7e-8",
     "explain() output is compared with tf.image.resize(bicubic) of the low-resolution map returned by the explainer's "
     "estimator on the recorded outputs (staging): max abs difference <= 1e-5",
+    "LatinHypercube(RS) draws are unseeded inside xplique (qmc.LatinHypercube(dimension), no public seed): a replay of "
+    "such a case re-draws the design; the draw is an input of the model, so the verdict does not depend on it",
     "HSIC cases are generated with positive scores (the unchanged tree returns NaN when the median output is 0: "
     "RBF width = median; known finding, not exercised)",
 ]
